@@ -119,6 +119,7 @@ def gen_case(rng):
     header = []
     args = []
     body = []
+    gsubs = []
     for i in range(nbuf):
         kind = rng.choice(["arg", "arg", "alloc", "global", "gsub", "const", "asub"])
         if kind == "asub":
@@ -143,39 +144,50 @@ def gen_case(rng):
             bufs.append({"name": f"%a{i}", "kind": "asub", "ro": False, "type": ST})
             continue
         if kind == "gsub":
-            # a block of a larger read-only global, taken by a static subview that is the global's only user
-            mult = rng.choice([2, 2, 4])
-            if len(shape) == 1:
-                gshape = [shape[0] * mult]
+            # a block of a larger read-only global, taken by a static subview; sometimes a second block of the SAME global (then the
+            # global has two users and must not be re-laid-out for one of them)
+            share = [g_ for g_ in gsubs if len(g_["used"]) < g_["mult"]] if rng.random() < 0.5 else []
+            if share:
+                g_ = rng.choice(share)
+                j = rng.choice([x for x in range(g_["mult"]) if x not in g_["used"]])
+                g_["used"].append(j)
+                gshape, axis, GT, gname = g_["gshape"], g_["axis"], g_["GT"], g_["gg"]
+            else:
+                mult = rng.choice([2, 2, 4])
                 j = rng.randrange(mult)
+                if len(shape) == 1:
+                    gshape, axis = [shape[0] * mult], 0
+                elif rng.random() < 0.5:
+                    gshape, axis = [shape[0] * mult, shape[1]], 0
+                else:
+                    gshape, axis = [shape[0], shape[1] * mult], 1
+                gdims = "x".join(map(str, gshape))
+                GT = f"memref<{gdims}xi32>"
+                total = 1
+                for s_ in gshape:
+                    total *= s_
+                flat = [1000 * (i + 1) + k for k in range(total)]
+                if len(gshape) == 1:
+                    vals = "[" + ", ".join(map(str, flat)) + "]"
+                else:
+                    rows = [flat[r * gshape[1] : (r + 1) * gshape[1]] for r in range(gshape[0])]
+                    vals = "[" + ", ".join("[" + ", ".join(map(str, r)) + "]" for r in rows) + "]"
+                header.append(f'  "memref.global"() <{{sym_name = "g{i}", type = {GT}, initial_value = dense<{vals}> : tensor<{gdims}xi32>, sym_visibility = "private", constant}}> : () -> ()')
+                gname = f"%gg{i}"
+                body.append(f"    {gname} = memref.get_global @g{i} : {GT}")
+                gsubs.append({"gg": gname, "gshape": gshape, "axis": axis, "GT": GT, "mult": mult, "used": [j]})
+            if len(shape) == 1:
                 offs = [j * shape[0]]
                 st_txt = f"strided<[1], offset: {offs[0]}>"
-            elif rng.random() < 0.5:
-                gshape = [shape[0] * mult, shape[1]]
-                j = rng.randrange(mult)
+            elif axis == 0:
                 offs = [j * shape[0], 0]
                 st_txt = f"strided<[{gshape[1]}, 1], offset: {offs[0] * gshape[1]}>"
             else:
-                gshape = [shape[0], shape[1] * mult]
-                j = rng.randrange(mult)
                 offs = [0, j * shape[1]]
                 st_txt = f"strided<[{gshape[1]}, 1], offset: {offs[1]}>"
-            gdims = "x".join(map(str, gshape))
-            GT = f"memref<{gdims}xi32>"
             ST = f"memref<{dims}xi32, {st_txt}>"
-            total = 1
-            for s_ in gshape:
-                total *= s_
-            flat = [1000 * (i + 1) + k for k in range(total)]
-            if len(gshape) == 1:
-                vals = "[" + ", ".join(map(str, flat)) + "]"
-            else:
-                rows = [flat[r * gshape[1] : (r + 1) * gshape[1]] for r in range(gshape[0])]
-                vals = "[" + ", ".join("[" + ", ".join(map(str, r)) + "]" for r in rows) + "]"
-            header.append(f'  "memref.global"() <{{sym_name = "g{i}", type = {GT}, initial_value = dense<{vals}> : tensor<{gdims}xi32>, sym_visibility = "private", constant}}> : () -> ()')
-            body.append(f"    %gg{i} = memref.get_global @g{i} : {GT}")
             body.append(
-                f"    %a{i} = memref.subview %gg{i}[{', '.join(map(str, offs))}] [{', '.join(map(str, shape))}] [{', '.join(['1'] * len(shape))}] : {GT} to {ST}"
+                f"    %a{i} = memref.subview {gname}[{', '.join(map(str, offs))}] [{', '.join(map(str, shape))}] [{', '.join(['1'] * len(shape))}] : {GT} to {ST}"
             )
             bufs.append({"name": f"%a{i}", "kind": "gsub", "ro": True, "type": ST})
         elif kind == "const":
@@ -398,6 +410,40 @@ def run_case(case, res):
     if any(op.name in ("memref.memory_space_cast", "snax.layout_cast") and op.results[0].uses.get_length() for op in p2.walk()):
         R.bump(res, "casts_left_unrealised")
     res["programs"] += 1
+    # a view's type must describe, relative to its first element, the addresses its source's layout assigns to the same block
+    # (the base pointer of a view is computed from the source; its declared strides / tiles are what DMA and streamers use)
+    for op in p2.walk():
+        if op.name != "memref.subview" or op.offsets or op.sizes or op.strides:
+            continue
+        try:
+            offs = [int(x) for x in op.static_offsets.get_values()]
+            sizes = [int(x) for x in op.static_sizes.get_values()]
+            strs = [int(x) for x in op.static_strides.get_values()]
+            if any(x != 1 for x in strs) or len(sizes) != len(op.results[0].type.get_shape()):
+                continue
+            ref_s = from_memref_type(op.operands[0].type)
+            ref_r = from_memref_type(op.results[0].type)
+        except Exception:
+            continue
+        R.bump(res, "views_checked_against_source_layout")
+        base_s = ref_s.addr(tuple(offs))
+        base_r = ref_r.addr(tuple([0] * len(sizes)))
+        bad = None
+        for idx in ref_r.indices():
+            a_s = ref_s.addr(tuple(o + i for o, i in zip(offs, idx))) - base_s
+            a_r = ref_r.addr(idx) - base_r
+            if a_s != a_r:
+                bad = (idx, a_s, a_r)
+                break
+        if bad:
+            out.append(
+                {
+                    "kind": "view-type-disagrees-with-source-layout",
+                    "detail": f"memref.subview at {offs} of {op.operands[0].type}: element {bad[0]} lies {bad[1]} elements after the block's first element in the source layout, the result type {op.results[0].type} says {bad[2]}",
+                    "case": case,
+                }
+            )
+            return out
     realised = sum(1 for op in p2.walk() if op.name == "memref.copy")
     glob_t = any(op.name == "memref.global" and op.sym_name.data.endswith("_transformed") for op in p2.walk())
     for trips in ([2] * case["nloops"], [0] * case["nloops"], [1] * case["nloops"], [3] * case["nloops"]):
